@@ -1,1 +1,202 @@
-//! reference model stub (to be written)
+//! M-LS: reference reading of an LS_COLORS style value, written from the
+//! property statement (C12), independent of the code under test.
+//!
+//! A value is a ';'-separated list of decimal codes.  The denoted style is the
+//! left-to-right fold of the codes over the default style:
+//!   0            full reset
+//!   1..=9        bold, dim, italic, underline, blink, blink (rapid), invert, hidden, strike
+//!   22..=29      resets: 22 bold+dim, 23 italic, 24 underline, 25 blink, 27 invert,
+//!                28 hidden, 29 strike (26 is not a reset of any of 1-9: unknown)
+//!   30-37 / 90-97    foreground, normal / bright
+//!   40-47 / 100-107  background, normal / bright
+//!   38 / 48 / 58 followed by `5;n` or `2;r;g;b`  foreground / background / underline colour
+//!   39 / 49 / 59 colour resets
+//!   anything else is ignored.
+//! "", "0" and "00" mean "no style".  A value with a field that is not a
+//! decimal number in 0..=255 is rejected.
+//!
+//! Three-valued where the statement is silent (`Unspecified`): an extended
+//! colour introducer that is not followed by one of the two well-formed
+//! tails; fields carrying a sign whose numeric value would be in range (`+1`, `-0`);
+//! fields written with non-ASCII digits.
+
+use crate::sgr::{fx, Col};
+
+#[derive(Clone, Copy, Debug, PartialEq, Eq, Hash)]
+pub struct LsStyle {
+    pub fg: Col,
+    pub bg: Col,
+    pub ul: Col,
+    pub effects: u16,
+}
+
+impl Default for LsStyle {
+    fn default() -> Self {
+        LsStyle { fg: Col::Default, bg: Col::Default, ul: Col::Default, effects: 0 }
+    }
+}
+
+#[derive(Clone, Debug, PartialEq, Eq, Hash)]
+pub enum Expect {
+    /// "", "0", "00"
+    NoStyle,
+    /// some field is not a number in 0..=255
+    Reject,
+    /// a well-formed list: this style
+    Style(LsStyle),
+    /// the statement does not define the result (reason); only "no panic" applies
+    Unspecified(&'static str),
+}
+
+#[derive(Clone, Copy, Debug, PartialEq, Eq)]
+pub enum Field {
+    Num(u8),
+    Bad,
+    Unspecified(&'static str),
+}
+
+/// One field of the list: ASCII decimal digits, value <= 255 (any number of leading zeros).
+pub fn field(f: &str) -> Field {
+    let b = f.as_bytes();
+    if b.is_empty() {
+        return Field::Bad;
+    }
+    if f.chars().any(|c| !c.is_ascii() && c.is_numeric()) && f.chars().all(|c| c.is_numeric() || c == '+' || c == '-') {
+        return Field::Unspecified("non-ASCII digits");
+    }
+    let (sign, digits) = match b[0] {
+        b'+' => (Some('+'), &b[1..]),
+        b'-' => (Some('-'), &b[1..]),
+        _ => (None, b),
+    };
+    if digits.is_empty() || !digits.iter().all(|c| c.is_ascii_digit()) {
+        return Field::Bad;
+    }
+    let mut v: u32 = 0;
+    for c in digits {
+        v = (v * 10 + (c - b'0') as u32).min(100_000);
+    }
+    match sign {
+        None => {
+            if v <= 255 {
+                Field::Num(v as u8)
+            } else {
+                Field::Bad
+            }
+        }
+        Some('+') => {
+            if v <= 255 {
+                Field::Unspecified("explicit '+' sign on an in-range number")
+            } else {
+                Field::Bad
+            }
+        }
+        _ => {
+            if v == 0 {
+                Field::Unspecified("'-0': signed spelling of an in-range number")
+            } else {
+                Field::Bad
+            }
+        }
+    }
+}
+
+/// The fold itself.  `None` = an extended-colour introducer without a well-formed tail.
+pub fn fold(codes: &[u8]) -> Option<LsStyle> {
+    let mut s = LsStyle::default();
+    let mut i = 0;
+    while i < codes.len() {
+        let c = codes[i];
+        i += 1;
+        match c {
+            0 => s = LsStyle::default(),
+            1 => s.effects |= fx::BOLD,
+            2 => s.effects |= fx::DIMMED,
+            3 => s.effects |= fx::ITALIC,
+            4 => s.effects |= fx::UNDERLINE,
+            5 | 6 => s.effects |= fx::BLINK,
+            7 => s.effects |= fx::INVERT,
+            8 => s.effects |= fx::HIDDEN,
+            9 => s.effects |= fx::STRIKETHROUGH,
+            22 => s.effects &= !(fx::BOLD | fx::DIMMED),
+            23 => s.effects &= !fx::ITALIC,
+            24 => s.effects &= !fx::UNDERLINE,
+            25 => s.effects &= !fx::BLINK,
+            27 => s.effects &= !fx::INVERT,
+            28 => s.effects &= !fx::HIDDEN,
+            29 => s.effects &= !fx::STRIKETHROUGH,
+            30..=37 => s.fg = Col::Ansi(c - 30),
+            39 => s.fg = Col::Default,
+            40..=47 => s.bg = Col::Ansi(c - 40),
+            49 => s.bg = Col::Default,
+            59 => s.ul = Col::Default,
+            90..=97 => s.fg = Col::Ansi(c - 90 + 8),
+            100..=107 => s.bg = Col::Ansi(c - 100 + 8),
+            38 | 48 | 58 => {
+                let col = match codes.get(i) {
+                    Some(5) if i + 1 < codes.len() => {
+                        let n = codes[i + 1];
+                        i += 2;
+                        Col::Idx(n)
+                    }
+                    Some(2) if i + 3 < codes.len() => {
+                        let (r, g, b) = (codes[i + 1], codes[i + 2], codes[i + 3]);
+                        i += 4;
+                        Col::Rgb(r, g, b)
+                    }
+                    _ => return None,
+                };
+                match c {
+                    38 => s.fg = col,
+                    48 => s.bg = col,
+                    _ => s.ul = col,
+                }
+            }
+            _ => {}
+        }
+    }
+    Some(s)
+}
+
+pub fn parse(value: &str) -> Expect {
+    if value.is_empty() || value == "0" || value == "00" {
+        return Expect::NoStyle;
+    }
+    let mut codes = vec![];
+    let mut unspecified = None;
+    for f in value.split(';') {
+        match field(f) {
+            Field::Num(n) => codes.push(n),
+            // a definitely bad field decides, whatever else is in the list
+            Field::Bad => return Expect::Reject,
+            Field::Unspecified(why) => unspecified = Some(why),
+        }
+    }
+    if let Some(why) = unspecified {
+        return Expect::Unspecified(why);
+    }
+    match fold(&codes) {
+        Some(s) => Expect::Style(s),
+        None => Expect::Unspecified("38/48/58 not followed by ';5;n' or ';2;r;g;b'"),
+    }
+}
+
+#[cfg(test)]
+mod tests {
+    use super::*;
+    #[test]
+    fn basics() {
+        assert_eq!(parse(""), Expect::NoStyle);
+        assert_eq!(parse("00"), Expect::NoStyle);
+        assert_eq!(parse("1;"), Expect::Reject);
+        assert_eq!(parse("256"), Expect::Reject);
+        assert_eq!(parse("+1;x"), Expect::Reject);
+        assert!(matches!(parse("+1"), Expect::Unspecified(_)));
+        assert!(matches!(parse("38;5"), Expect::Unspecified(_)));
+        assert_eq!(
+            parse("01;38;5;38;22;48;2;1;2;3;4"),
+            Expect::Style(LsStyle { fg: Col::Idx(38), bg: Col::Rgb(1, 2, 3), ul: Col::Default, effects: fx::UNDERLINE })
+        );
+        assert_eq!(parse("31;000"), Expect::Style(LsStyle::default()));
+    }
+}
